@@ -97,7 +97,7 @@ func (cbm *callbackMgr[T]) runCBs(ctx context.Context) {
 			// add this callback to the set of callbacks
 			newCfgCBs = append(newCfgCBs, e.handle)
 		case *userCallbackUnregister[T]:
-			removed := make([]*userCallbackHandle[T], 0, len(newCfgCBs)-1)
+			removed := make([]*userCallbackHandle[T], 0, len(newCfgCBs))
 			for _, cb := range newCfgCBs {
 				if e.handle == cb {
 					// don't add the one we're removing to the new list
